@@ -539,3 +539,40 @@ def _domain_update_deg(n):
 
 
 DOMAIN[N_ + 'ConnectorDegreeGroupingNode.update_deg@whole-graph'] = _domain_update_deg
+
+
+# ---- ConnectorNode.is_valid: the degree test behind the unconnectable-connector feasibility check (C11) ---------------
+# An open-ended connector stores deg_max = math.inf; the verifier's reals have no infinity, so the proved clause covers
+# finite bounds and lists, and the open-ended case is evaluated on the function's bounded domain (real floats).
+CONTRACTS[N_ + 'ConnectorNode.is_valid'] = dict(
+    properties=['C11'],
+    types={'self': 'Ref[ConnectorNode]', 'degree': 'Int'},
+    returns='Bool',
+    requires={'range-set-when-no-list': 'implies(self.deg_list is None, self.deg_min is not None and self.deg_max is not None)'},
+    ensures={
+        'listed-degrees-exactly': ('property', 'implies(self.deg_list is not None, result == (degree in self.deg_list))'),
+        'range-inclusive-both-ends': ('property', 'implies(self.deg_list is None, result == (self.deg_min <= degree and degree <= self.deg_max))'),
+    },
+    modifies=[],
+)
+
+
+def _domain_is_valid(n):
+    import random, os, math
+    from adsg_core.graph.adsg_nodes import ConnectorNode
+    rng = random.Random(9600 + int(os.environ.get('VERIF_SEED', '0') or 0))
+    for _ in range(n):
+        r = rng.random()
+        if r < 0.4:
+            c = ConnectorNode('c', deg_list=sorted(rng.sample(range(0, 6), rng.randint(1, 3))))
+        elif r < 0.7:
+            lo = rng.randint(0, 3)
+            c = ConnectorNode('c', deg_min=lo, deg_max=lo + rng.randint(0, 3))
+        else:
+            c = ConnectorNode('c', deg_min=rng.randint(0, 3), deg_max=math.inf)
+        d = rng.randint(0, 7)
+        yield ({'self': c, 'degree': d}, (lambda c=c, d=d: c.is_valid(d)), {},
+               f'ConnectorNode(deg_list={c.deg_list}, deg_min={c.deg_min}, deg_max={c.deg_max}).is_valid({d})')
+
+
+DOMAIN[N_ + 'ConnectorNode.is_valid'] = _domain_is_valid
